@@ -140,6 +140,11 @@ def run_shard(spec):
             if k % spec['parts'] == spec['part']:
                 for args in idioms.SPEC_ARGS:
                     check_program(res, prog, args, rng, tag)
+        # the same on bool and byte operands, in condition positions, as first and as later statement of a function
+        for k, (tag, prog) in enumerate(idioms.spec_bool_programs()):
+            if k % spec['parts'] == spec['part']:
+                for args in idioms.SPEC_BOOL_ARGS:
+                    check_program(res, prog, args, rng, tag)
         return res
     rng = random.Random(spec['seed'])
     for i in range(spec['count']):
